@@ -167,6 +167,24 @@ APPEND = {
     ("C03_CoWW_same_thread_model", "CoWW_same_thread_model", "write-write coherence"),
     ("C03_close_model_closed", "close_model_closed", "the fuel of the closure (4 x ring size) suffices: every productive round adds an ordered pair, there are at most 21"),
     ("C03_reach_model_example", "reach_model_example", "non-vacuity: both runs of the former D19 scenario (they contain an RMW) end in reachable states"),
+ ]), ("LV.AtomicFacts LV.AtomicCoherence LV.AtomicCoRR LV.AtomicClosure LV.AtomicBridge", "TOWARDS THE EXECUTION MODEL (AtomicBridge.v): the machine generalised by an arbitrary clock-growth step -- a thread joins ANY view v whose components are bounded by their owners' own stamps (exactly what ClockFacts.run_clock_wf gives for every view stored anywhere in an execution state: mutex, channel, notify, release sequences ...), instead of only another thread's current clock -- and the calls of Ops.v shown to be machine steps. Still missing for a full bridge (DESIGN section 11): the tracking-clock fields of the invariant, t_rel <> vv_new, replayed indices, spawn", [
+    ("C03_grow_goodS", "grow_goodS", "the invariant survives a join with any admissible view"),
+    ("C03_sync_view_admissible", "sync_view_admissible", "the synchronisation view of any live store is admissible (acquire fences)"),
+    ("C03_brun_goodS", "brun_goodS", "the invariant holds along every run of the generalised machine (model steps + arbitrary admissible growth)"),
+    ("C03_brun_stable", "brun_stable", "no modification-order edge is ever lost along such a run"),
+    ("C03_brun_atomicity", "brun_atomicity", "RMW atomicity in every state of every such run"),
+    ("C03_brun_never_none", "brun_never_none", "loom's assert_ne never fires"),
+    ("C03_CoRR_CoWR_b", "CoRR_CoWR_b", "CoRR / CoWR in happens-before form for the generalised machine"),
+    ("C03_CoRR_CoWR_rmw_b", "CoRR_CoWR_rmw_b", "likewise for RMWs"),
+    ("C03_CoRR_same_thread_b", "CoRR_same_thread_b", "read-read coherence"),
+    ("C03_CoWR_same_thread_b", "CoWR_same_thread_b", "write-read coherence"),
+    ("C03_CoRW_same_thread_b", "CoRW_same_thread_b", "read-write coherence"),
+    ("C03_CoWW_same_thread_b", "CoWW_same_thread_b", "write-write coherence"),
+    ("C03_atomic_new_goodS", "atomic_new_goodS", "the cell may be created by any thread at any point of a system with arbitrary bounded clocks that dominate the creation clock"),
+    ("C03_load_call_is_step", "load_call_is_step", "Ops.v's load call (candidates computed with any last_yield) is a machine load step"),
+    ("C03_store_call_is_step", "store_call_is_step", "the store call is a machine store step"),
+    ("C03_rmw_call_is_step", "rmw_call_is_step", "the RMW call is a machine RMW step"),
+    ("C03_MStorePost_is_step", "MStorePost_is_step", "one micro-operation end to end: exec_micro on MStorePost is the machine's store step on (atomic a, the threads' clocks) (for t_rel = vv_new, ring not full)"),
  ])],
  "C02": [("LV.AtomicFacts LV.AtomicCoherence", "Nothing allowed is pruned without a reason: the candidate set is never empty and contains every mo-maximal store (AtomicCoherence.v)", [
     ("C02_mo_maximal_is_candidate", "mo_maximal_is_candidate", "a live store with no mo-later live store is always a candidate"),
